@@ -34,7 +34,8 @@ META = dict(
     outside=["mul_add when both points carry tables returns self*a + other*b: the table product "
              "(checked here) composed with __add__ (C06); that composition is not re-derived",
              "scalars above the stated bounds on the table-less paths (the loops are uniform in the "
-             "bit index but no induction is claimed)", "orders that do not annihilate P",
+             "bit index but no induction is claimed)", "orders that do not annihilate P", "a declared order of production size on the digit-"
+             "recoding paths (only the table construction is checked at 112 bits)",
              "groups with 2-torsion (the y = 0 finding of C06/C08)"],
     assumptions=["z3 LIA / QF_BV sound", "instrumented source executes like the original"],
     budget_s=dict(quick=1500, thorough=10800),
@@ -418,6 +419,11 @@ def jobs(tier, seed):
     for q in qs:
         qn = "q%d" % q if q < 10 ** 6 else "q%dbit" % q.bit_length()
         for om in ((0, 1) if tier == "quick" else (0, 1, 3)):
+            if om and q > 10 ** 6:
+                # a declared 112-bit order makes the recoding ~115 symbolic digits deep: the
+                # queries do not finish; the table itself is still checked (table_job)
+                js.append(Job("table/%s/o%d" % (qn, om), "harness.c07:table_job", q=q, order_mult=om))
+                continue
             for gen in (False, True):
                 if gen and om == 0:
                     continue
@@ -427,7 +433,7 @@ def jobs(tier, seed):
                 js.append(Job("table/%s/o%d" % (qn, om), "harness.c07:table_job", q=q, order_mult=om))
         ts = [0, 1, q - 1, 2] if tier == "quick" else sorted(set([0, 1, q - 1, 2, (q + 1) // 2]))
         for t in ts:
-            for om in (0, 1):
+            for om in ((0,) if q > 10 ** 6 else (0, 1)):
                 # both points with tables: mul_add returns self*a + other*b, i.e. the table
                 # product (mul jobs) composed with __add__ (C06); not re-derived here
                 for gs, go in ((False, False), (True, False)):
@@ -438,8 +444,9 @@ def jobs(tier, seed):
                                   hi=2 ** 8 if tier == "quick" else 2 ** 10, gen_self=gs, gen_other=go))
     from harness.c06 import _fixed_curves
     for p in ((5,) if tier == "quick" else (5, 7)):
-        ab = _fixed_curves(p)[0]
+        ab = {5: (2, 1), 7: (0, 3)}[p]       # prime group order (7 resp. 13): no 2-torsion
         N = len(eg.curve_points(p, ab[0], ab[1])) + 1
+        assert eg._is_prime(N)
         for k in list(range(-3, 2 * N + 4)):
             if tier == "quick" and k > N + 2 and k != 2 * N + 3:
                 continue
